@@ -424,6 +424,11 @@ func ruleSem2(c *Ctx, r *Reporter) {
 	}{{"compareInt32s", plain}, {"compareInt64s", plain}, {"compareFloat64s", floats}, {"compareDates", plain}} {
 		fn := c.lookupSSA(pkgBsonkit, t.fn)
 		if fn == nil {
+			if t.fn == "compareInt32s" && c.lookupSSA(pkgBsonkit, "compareNumbers") != nil {
+				// the int32 comparator has a single use; written out in compareNumbers it is decided by SEM-3
+				r.ok("anchor:"+t.fn, "-", "not present as a function: the comparison is decided where it is written (SEM-3)")
+				continue
+			}
 			r.bad("anchor:"+t.fn, "-", "not found")
 			continue
 		}
@@ -664,6 +669,9 @@ func ruleSem3(c *Ctx, r *Reporter) {
 		// name the case by the asserted types reaching it
 		key := fmt.Sprintf("compareNumbers:case@%s", caseLabel(ret))
 		o := orientation(v, fromL, fromR, 0)
+		if o == 0 {
+			o = inlineSign(ret, fromL, fromR)
+		}
 		switch o {
 		case 1:
 			r.ok(key, c.pos(ret.Pos()), "compares left with right")
@@ -674,6 +682,110 @@ func ruleSem3(c *Ctx, r *Reporter) {
 		}
 	}
 	r.guard(n, 16, "numeric type pairs in compareNumbers")
+}
+
+// inlineSign decides a comparison written out in place (if l == r { return 0 } else if l > r { return 1 }; return -1):
+// the returned constant must be the sign of (L ? R) for every ordering consistent with the tests on the way to the return.
+// +1 = sign of (L,R), -1 = sign of (R,L), 0 = undecided.
+func inlineSign(ret *ssa.Return, fromL, fromR func(ssa.Value) bool) int {
+	k, ok := retVal(ret, 0).(*ssa.Const)
+	if !ok || k.Value == nil {
+		return 0
+	}
+	kv := k.Int64()
+	type test struct {
+		op   token.Token
+		want bool
+	}
+	var tests []test
+	b := ret.Block()
+	for d := 0; d < 8 && len(b.Preds) == 1; d++ {
+		p := b.Preds[0]
+		iff, isIf := p.Instrs[len(p.Instrs)-1].(*ssa.If)
+		if !isIf {
+			b = p
+			continue
+		}
+		bin, isBin := iff.Cond.(*ssa.BinOp)
+		if !isBin {
+			break // the type switch test: the case starts here
+		}
+		op := bin.Op
+		switch {
+		case fromL(bin.X) && fromR(bin.Y):
+		case fromR(bin.X) && fromL(bin.Y):
+			switch op {
+			case token.LSS:
+				op = token.GTR
+			case token.GTR:
+				op = token.LSS
+			case token.LEQ:
+				op = token.GEQ
+			case token.GEQ:
+				op = token.LEQ
+			}
+		default:
+			return 0
+		}
+		tests = append(tests, test{op, p.Succs[0] == b})
+		b = p
+	}
+	if len(tests) == 0 {
+		return 0
+	}
+	holds := func(op token.Token, o int) bool {
+		switch op {
+		case token.EQL:
+			return o == 0
+		case token.NEQ:
+			return o != 0
+		case token.LSS:
+			return o < 0
+		case token.GTR:
+			return o > 0
+		case token.LEQ:
+			return o <= 0
+		case token.GEQ:
+			return o >= 0
+		}
+		return false
+	}
+	res, any := 0, false
+	for o := -1; o <= 1; o++ {
+		consistent := true
+		for _, t := range tests {
+			if holds(t.op, o) != t.want {
+				consistent = false
+			}
+		}
+		if !consistent {
+			continue
+		}
+		any = true
+		var this int
+		switch {
+		case kv == int64(o) && o != 0:
+			this = 1
+		case kv == int64(-o) && o != 0:
+			this = -1
+		case o == 0 && kv == 0:
+			continue // equal operands: says nothing about the orientation
+		default:
+			return 0
+		}
+		if res != 0 && res != this {
+			return 0
+		}
+		res = this
+	}
+	if !any {
+		return 0
+	}
+	if res == 0 {
+		// the "equal" leg only: oriented either way
+		return 1
+	}
+	return res
 }
 
 // caseLabel: the types asserted on the path (from the type-switch), for a stable key.
